@@ -1,5 +1,5 @@
 """C15 — tilt-stack operations are lossless selections/permutations of tilt images (DESIGN.md section 4, C15)."""
-import os, io, ast, struct, tempfile, contextlib, math
+import os, io, re, ast, struct, tempfile, contextlib, math
 from fractions import Fraction
 import numpy as np
 import core
@@ -22,7 +22,12 @@ RULE = ("one case = one operation (sort_tilts_by_angle / remove_tilts / split_st
         "cases carry an argument the code must refuse. ~12% of the cases are SEQUENCES of 2-4 calls in one process: on the same file path "
         "(each call reads and overwrites it, or the harness rewrites it with another stack of the same shape between two calls) or with the "
         "same caller-owned ndarray / list / file as second argument for different inputs; every call is judged like a first call against "
-        "what the file held / the case says. non-trivial = no rejection, height != width, n >= 3 and the result differs from the input "
+        "what the file held / the case says. Tilt angles are decimal TEXT (1-4 decimals, about 2/3 off the dyadic grid, with pairs that differ "
+        "only in the last written digit: 0.01-0.03 deg, 0.001 deg, 1e-4 deg; 1/4 of the lists in descending order) written literally into the "
+        ".tlt/.rawtlt/.mdoc file or converted with float() for list / float64 / float32 / int64 ndarray / tuple arguments; the oracle and the Lean "
+        "model order the EXACT written values (Fraction / Rat), so any loss of precision between the file and the sort key is visible; ~4% of the sort "
+        "cases hold a tie (outside the statement: only 'some ascending order' is checked, numpy's default argsort is not stable); a refusal is classified by "
+        "exception type + the documented precondition the case violates, never by message text. non-trivial = no rejection, height != width, n >= 3 and the result differs from the input "
         "(sequences: >= 2 calls returned and one changed its input); distinct = distinct case content")
 ASSUMPTIONS = [
     "numpy basic/fancy indexing, np.delete, np.stack, transpose(2,1,0) and astype to the same dtype copy voxels bit for bit",
@@ -31,11 +36,15 @@ ASSUMPTIONS = [
     "correctly rounded; astype(int16) truncates toward zero (probed every run; the model applies the same truncation and the int16 results are compared exactly)",
     "mrcfile writes exactly the header dimensions/mode and C-order bytes it is given and returns a 3-D array for nz >= 2 (output files are re-read "
     "by the harness's own parser; the parser is cross-checked against mrcfile by a probe on every run)",
-    "angle files: repr() of a multiple of 1/8 below 100 is read back exactly by pandas (float32, .tlt/.rawtlt) and by cryocat.mdoc (float64)",
+    "decimal text -> float conversion of pandas (float32, one-value-per-line files), python float() (mdoc, lists) and numpy is correctly rounded, hence "
+    "monotone: different written angles keep their order unless they round to the same float; that is computed for every sort case from the case alone "
+    "(never from the implementation's output) and such cases (>= 8 significant digits in a .tlt file) are counted as ties = outside the statement",
 ]
 TRUSTED = ["harness MRC parser (props/c15.py parse_mrc)", "mrcfile (only to create the *input* files; checked by the parser probe)"]
 REL = "cryocat/tiltstack.py"
 REL_IO = "cryocat/ioutils.py"
+REL_MDOC = "cryocat/mdoc.py"
+REL_MAP = "cryocat/cryomap.py"
 OPS = ["sort", "remove", "split", "flip", "crop", "bin"]
 INPUTS = ["arr_xyz", "arr_zyx", "file_xyz", "file_zyx"]   # file_<o>: MRC path, input_order=<o> (documented as irrelevant)
 
@@ -59,36 +68,103 @@ def _params(fn):
     return [x.arg for x in a.posonlyargs + a.args + a.kwonlyargs] + ([a.vararg.arg] if a.vararg else []) + ([a.kwarg.arg] if a.kwarg else [])
 
 
-class _Binders(ast.NodeVisitor):
-    def __init__(self, skip):
-        self.skip, self.order = set(skip), []
+class _Strip(ast.NodeTransformer):
+    """H1: type annotations carry no behaviour. Argument / return annotations are removed, `x: T = v` becomes `x = v`,
+    a bare declaration `x: T` disappears; docstrings of nested functions are removed too."""
+
+    def _fn(self, n):
+        self.generic_visit(n)
+        a = n.args
+        for x in a.posonlyargs + a.args + a.kwonlyargs + ([a.vararg] if a.vararg else []) + ([a.kwarg] if a.kwarg else []):
+            x.annotation = None
+        n.returns = None
+        if n.body and isinstance(n.body[0], ast.Expr) and isinstance(n.body[0].value, ast.Constant) and isinstance(n.body[0].value.value, str):
+            n.body = n.body[1:] or [ast.Pass()]
+        return n
+
+    visit_FunctionDef = visit_AsyncFunctionDef = _fn
+
+    def visit_AnnAssign(self, n):
+        self.generic_visit(n)
+        if n.value is None:
+            return None
+        return ast.copy_location(ast.Assign(targets=[n.target], value=n.value), n)
+
+
+class _Alpha(ast.NodeTransformer):
+    """H2: canonical names by BINDING OCCURRENCE. Pass 1 (`number`) walks the function in the traversal order of pass 2 and gives
+    a number to the first binding occurrence of every named local and to EVERY binding occurrence of the discard name `_`
+    (each discard is a variable of its own; a later read of `_` refers to the latest one). So renaming a local, renaming one
+    discard, or giving a discard a real name changes nothing. Parameters, attributes and globals keep their names.
+    `orig` maps the canonical names back to the identifiers of the source (for the AnchorMissing texts)."""
+
+    def __init__(self, params):
+        self.skip, self.map, self.orig, self.discards = set(params), {}, {}, []
+        self.numbering, self.k, self.last_discard = True, 0, None
+
+    def _fresh(self, name):
+        v = f"v{len(self.orig)}"
+        self.orig[v] = name
+        return v
+
+    def _bind(self, name):
+        if name in self.skip:
+            return name
+        if name == "_":
+            if self.numbering:
+                self.discards.append(self._fresh("_"))
+                return name
+            self.last_discard = self.discards[self.k]
+            self.k += 1
+            return self.last_discard
+        if name not in self.map:
+            self.map[name] = self._fresh(name)
+        return self.map[name]
 
     def visit_Name(self, n):
-        if isinstance(n.ctx, (ast.Store, ast.Del)) and n.id not in self.skip and n.id not in self.order:
-            self.order.append(n.id)
+        if isinstance(n.ctx, (ast.Store, ast.Del)):
+            new = self._bind(n.id)
+        elif n.id == "_" and self.last_discard and "_" not in self.skip:
+            new = self.last_discard
+        else:
+            new = self.map.get(n.id, n.id)
+        return n if self.numbering else ast.copy_location(ast.Name(id=new, ctx=n.ctx), n)
 
-    def visit_FunctionDef(self, n):          # nested defs bind their own name only
-        if n.name not in self.skip and n.name not in self.order:
-            self.order.append(n.name)
+    def visit_FunctionDef(self, n):          # a nested def binds its own name; its body is renamed with the same map
+        new = self._bind(n.name)
+        if not self.numbering:
+            n.name = new
+        self.generic_visit(n)
+        return n
 
 
-class _Rename(ast.NodeTransformer):
-    def __init__(self, m):
-        self.m = m
-
-    def visit_Name(self, n):
-        return ast.copy_location(ast.Name(id=self.m.get(n.id, n.id), ctx=n.ctx), n)
+_ORIG = {}     # canonical name -> source identifier of the function normalised last (used to quote the source in AnchorMissing texts)
 
 
 def _alpha(fn):
     import copy
-    fn = copy.deepcopy(fn)
-    b = _Binders(_params(fn))
-    for st in fn.body:
-        b.visit(st)
-    ren = _Rename({name: f"v{k}" for k, name in enumerate(b.order)})
-    fn.body = [ren.visit(st) for st in fn.body]
+    fn = _Strip().visit(copy.deepcopy(fn))
+    ast.fix_missing_locations(fn)
+    al = _Alpha(_params(fn))
+    for st in fn.body:                       # pass 1: number the binding occurrences
+        al.visit(st)
+    al.numbering = False
+    fn.body = [al.visit(st) for st in fn.body]
+    _ORIG.clear()
+    _ORIG.update(al.orig)
+    fn._orig = dict(al.orig)
     return fn
+
+
+def _src_text(text):
+    """canonical names in an AnchorMissing text -> the identifiers the source uses (H2)"""
+    import re
+    return re.sub(r"\bv(\d+)\b", lambda m: _ORIG.get(m.group(0), m.group(0)), text)
+
+
+class _Missing(core.AnchorMissing):
+    def __init__(self, text):
+        super().__init__(_src_text(text))
 
 
 def _u(node):
@@ -100,8 +176,9 @@ def _skeleton(stmts, ind=""):
     for k, st in enumerate(stmts):
         if isinstance(st, ast.Expr) and isinstance(st.value, ast.Constant) and isinstance(st.value.value, str):
             continue                                                   # docstring / bare string
-        if isinstance(st, ast.Expr) and isinstance(st.value, ast.Call) and _u(st.value.func) == "print":
-            continue
+        if isinstance(st, ast.Expr) and isinstance(st.value, ast.Call) and (_u(st.value.func) in ("print", "warnings.warn", "warn")
+                                                                            or _u(st.value.func).split(".")[0] in ("logging", "logger", "log")):
+            continue                                                   # H1: the text of a message is not behaviour
         if isinstance(st, ast.If):
             out.append(f"{ind}if {_u(st.test)}:")
             out += _skeleton(st.body, ind + "  ")
@@ -117,11 +194,22 @@ def _skeleton(stmts, ind=""):
         elif isinstance(st, ast.Raise):
             e = st.exc.func if isinstance(st.exc, ast.Call) else st.exc
             out.append(f"{ind}raise {_u(e) if e is not None else ''}")
-        elif isinstance(st, (ast.With, ast.Try)):
-            out.append(f"{ind}{type(st).__name__.lower()}:")
-            for fld in ("body", "handlers", "orelse", "finalbody"):
-                for h in getattr(st, fld, []) or []:
-                    out += _skeleton(h.body if isinstance(h, ast.ExceptHandler) else [h], ind + "  ")
+        elif isinstance(st, ast.With):
+            out.append(f"{ind}with {', '.join(_u(i) for i in st.items)}:")
+            out += _skeleton(st.body, ind + "  ")
+        elif isinstance(st, ast.Try):
+            out.append(f"{ind}try:")
+            out += _skeleton(st.body, ind + "  ")
+            for h in st.handlers:
+                out.append(f"{ind}except {_u(h.type) if h.type is not None else ''}:")
+                out += _skeleton(h.body, ind + "  ")
+            for fld in ("orelse", "finalbody"):
+                if getattr(st, fld):
+                    out.append(f"{ind}{'else' if fld == 'orelse' else 'finally'}:")
+                    out += _skeleton(getattr(st, fld), ind + "  ")
+        elif isinstance(st, (ast.FunctionDef, ast.AsyncFunctionDef)):
+            out.append(f"{ind}def {st.name}({', '.join(_params(st))}):")
+            out += _skeleton(st.body, ind + "  ")
         else:
             out.append(ind + _u(st))
     return out
@@ -129,7 +217,7 @@ def _skeleton(stmts, ind=""):
 
 def _transpose_axes(call):
     if not (isinstance(call, ast.Call) and isinstance(call.func, ast.Attribute) and call.func.attr == "transpose"):
-        raise core.AnchorMissing("not a .transpose(...) call: " + _u(call)[:60])
+        raise _Missing("not a .transpose(...) call: " + _u(call)[:60])
     return [int(ast.literal_eval(a)) for a in call.args]
 
 
@@ -140,7 +228,7 @@ def _kw_false(fn, callee):
                 if k.arg == "transpose":
                     return bool(ast.literal_eval(k.value))
             return True  # cryomap default is transpose=True
-    raise core.AnchorMissing(f"{fn.name}: no call of {callee}")
+    raise _Missing(f"{fn.name}: no call of {callee}")
 
 
 def _ts_var(fn):
@@ -148,7 +236,7 @@ def _ts_var(fn):
     for st in fn.body:
         if isinstance(st, ast.Assign) and isinstance(st.value, ast.Call) and _u(st.value.func) == "TiltStack" and isinstance(st.targets[0], ast.Name):
             return st.targets[0].id
-    raise core.AnchorMissing(f"{fn.name}: no `ts = TiltStack(...)` statement")
+    raise _Missing(f"{fn.name}: no `ts = TiltStack(...)` statement")
 
 
 def _defaults(fn):
@@ -168,36 +256,36 @@ def translate(src):
         ts = _ts_var(fn)
         loop = [n for n in ast.walk(fn) if isinstance(n, ast.For)]
         if len(loop) != 1 or not isinstance(loop[0].target, ast.Name):
-            raise core.AnchorMissing("flip_along_axes: for-loop over axes")
+            raise _Missing("flip_along_axes: for-loop over axes")
         lv = loop[0].target.id
         if len(loop[0].body) != 1:
-            raise core.AnchorMissing("flip_along_axes: loop body is not a single if/elif chain")
+            raise _Missing("flip_along_axes: loop body is not a single if/elif chain")
         node, table = loop[0].body[0], []
         while isinstance(node, ast.If):
             t = node.test
             if not (isinstance(t, ast.Compare) and len(t.ops) == 1 and isinstance(t.ops[0], ast.Eq) and isinstance(t.comparators[0], ast.Constant)
                     and isinstance(t.left, ast.Name) and t.left.id == lv):
-                raise core.AnchorMissing("flip_along_axes: branch test " + _u(t))
+                raise _Missing("flip_along_axes: branch test " + _u(t))
             st = node.body[0]
             if not (len(node.body) == 1 and isinstance(st, ast.Assign) and _u(st.targets[0]) == f"{ts}.data"
                     and isinstance(st.value, ast.Subscript) and _u(st.value.value) == f"{ts}.data" and isinstance(st.value.slice, ast.Tuple)):
-                raise core.AnchorMissing("flip_along_axes: branch body " + _u(st)[:60])
+                raise _Missing("flip_along_axes: branch body " + _u(st)[:60])
             rev = []
             for k, s in enumerate(st.value.slice.elts):
                 if not (isinstance(s, ast.Slice) and s.lower is None and s.upper is None):
-                    raise core.AnchorMissing("flip_along_axes: slice " + _u(st))
+                    raise _Missing("flip_along_axes: slice " + _u(st))
                 if s.step is not None:
                     if _u(s.step) != "-1":
-                        raise core.AnchorMissing("flip_along_axes: step " + _u(st))
+                        raise _Missing("flip_along_axes: step " + _u(st))
                     rev.append(k)
             if len(rev) != 1 or len(st.value.slice.elts) != 3:
-                raise core.AnchorMissing("flip_along_axes: exactly one reversed axis expected in " + _u(st))
+                raise _Missing("flip_along_axes: exactly one reversed axis expected in " + _u(st))
             table.append([str(t.comparators[0].value), rev[0]])
             if len(node.orelse) != 1:
-                raise core.AnchorMissing("flip_along_axes: chain must end in an else branch")
+                raise _Missing("flip_along_axes: chain must end in an else branch")
             node = node.orelse[0]
         if not isinstance(node, ast.Raise):
-            raise core.AnchorMissing("flip_along_axes: the final else branch must raise")
+            raise _Missing("flip_along_axes: the final else branch must raise")
         return table
 
     def index_shift():
@@ -214,7 +302,7 @@ def translate(src):
                     return [n.test.id, c]
                 if isinstance(st.value.op, ast.Add):
                     return [n.test.id, -c]
-        raise core.AnchorMissing("indices_load: `if numbered_from_1: indices = indices - 1` (a fresh array, not an in-place update) followed by `return indices`")
+        raise _Missing("indices_load: `if numbered_from_1: indices = indices - 1` (a fresh array, not an in-place update) followed by `return indices`")
 
     def even_rule():
         fn = F("split_stack_even_odd")
@@ -227,16 +315,16 @@ def translate(src):
             if isinstance(n, ast.Return) and n.value is not None:
                 ret = n.value
         if sorted(writes) != ["_even.mrc", "_odd.mrc"] or not (isinstance(ret, ast.Tuple) and len(ret.elts) == 2):
-            raise core.AnchorMissing("split_stack_even_odd: two write_out(prefix + '_even.mrc'/'_odd.mrc', new_data=...) calls and a returned pair")
+            raise _Missing("split_stack_even_odd: two write_out(prefix + '_even.mrc'/'_odd.mrc', new_data=...) calls and a returned pair")
         ev, od = writes["_even.mrc"], writes["_odd.mrc"]
         if [_u(e) for e in ret.elts] != [f"{ts}.correct_order({ev})", f"{ts}.correct_order({od})"] or ev == od:
-            raise core.AnchorMissing("split_stack_even_odd: returns (correct_order(even), correct_order(odd)) of the stacks it writes")
+            raise _Missing("split_stack_even_odd: returns (correct_order(even), correct_order(odd)) of the stacks it writes")
         for n in ast.walk(fn):
             if isinstance(n, ast.If) and isinstance(n.test, ast.Compare) and isinstance(n.test.left, ast.BinOp) and isinstance(n.test.left.op, ast.Mod):
                 t = n.test
                 loop = [f for f in ast.walk(fn) if isinstance(f, ast.For) and n in f.body]
                 if not (loop and isinstance(loop[0].target, ast.Name) and _u(loop[0].iter) == f"range({ts}.n_tilts)"):
-                    raise core.AnchorMissing("split_stack_even_odd: parity test outside `for i in range(ts.n_tilts)`")
+                    raise _Missing("split_stack_even_odd: parity test outside `for i in range(ts.n_tilts)`")
                 i = loop[0].target.id
                 if _u(t.left) == f"{i} % 2" and isinstance(t.ops[0], ast.Eq) and isinstance(t.comparators[0], ast.Constant) and len(n.body) == 1 and len(n.orelse) == 1:
                     body, orelse = _u(n.body[0]), _u(n.orelse[0])
@@ -244,7 +332,7 @@ def translate(src):
                         return int(t.comparators[0].value)
                     if body == f"{od}.append({ts}.data[{i}, :, :])" and orelse == f"{ev}.append({ts}.data[{i}, :, :])":
                         return 1 - int(t.comparators[0].value)
-        raise core.AnchorMissing("split_stack_even_odd: `if i % 2 == 0: even.append(ts.data[i,:,:]) else: odd.append(...)`")
+        raise _Missing("split_stack_even_odd: `if i % 2 == 0: even.append(ts.data[i,:,:]) else: odd.append(...)`")
 
     def init_transpose():
         fn = F("TiltStack.__init__")
@@ -254,7 +342,7 @@ def translate(src):
                     and isinstance(n.body[0].value, ast.Call) and _u(n.body[0].value.func) == "self.data.transpose":
                 hits.append(n)
         if len(hits) != 1:
-            raise core.AnchorMissing("TiltStack.__init__: `if input_order == 'xyz': self.data = self.data.transpose(...)`")
+            raise _Missing("TiltStack.__init__: `if input_order == 'xyz': self.data = self.data.transpose(...)`")
         return [_transpose_axes(hits[0].body[0].value), _u(hits[0].test)]
 
     def out_transpose():
@@ -264,27 +352,29 @@ def translate(src):
                     and isinstance(n.body[0].value.func, ast.Attribute) and n.body[0].value.func.attr == "transpose":
                 rd = _u(n.body[0].value.func.value)
                 if not (n.orelse and isinstance(n.orelse[0], ast.Return) and _u(n.orelse[0].value) == rd):
-                    raise core.AnchorMissing("TiltStack.correct_order: else branch does not return the untransposed data")
+                    raise _Missing("TiltStack.correct_order: else branch does not return the untransposed data")
                 return [_transpose_axes(n.body[0].value), _u(n.test)]
-        raise core.AnchorMissing("TiltStack.correct_order: `if self.current_order != self.output_order: return return_data.transpose(...)`")
+        raise _Missing("TiltStack.correct_order: `if self.current_order != self.output_order: return return_data.transpose(...)`")
 
     def shape_unpack():
         fn = F("TiltStack.__init__")
         for n in ast.walk(fn):
             if isinstance(n, ast.Assign) and isinstance(n.targets[0], ast.Tuple) and _u(n.value) == "self.data.shape":
                 return [_u(e).replace("self.", "") for e in n.targets[0].elts]
-        raise core.AnchorMissing("TiltStack.__init__: `self.n_tilts, self.height, self.width = self.data.shape`")
+        raise _Missing("TiltStack.__init__: `self.n_tilts, self.height, self.width = self.data.shape`")
 
     def current_order():
         fn = F("TiltStack.__init__")
         hits = [n for n in ast.walk(fn) if isinstance(n, ast.Assign) and len(n.targets) == 1 and _u(n.targets[0]) == "self.current_order"]
         if len(hits) != 1:
-            raise core.AnchorMissing("TiltStack.__init__: exactly one assignment to self.current_order")
+            raise _Missing("TiltStack.__init__: exactly one assignment to self.current_order")
         return str(ast.literal_eval(hits[0].value))
 
     def sig_defaults():
         out = []
-        for name, rel in [(f, REL) for f in SIX] + [("TiltStack.__init__", REL), ("indices_load", REL_IO), ("tlt_load", REL_IO)]:
+        for name, rel in [(f, REL) for f in SIX] + [("TiltStack.__init__", REL), ("indices_load", REL_IO), ("tlt_load", REL_IO),
+                          ("one_value_per_line_read", REL_IO), ("Mdoc.__init__", REL_MDOC), ("Mdoc.get_image_feature", REL_MDOC),
+                          ("read", REL_MAP), ("write", REL_MAP)]:
             fn = src.find(rel, name)
             out.append([name, ", ".join(_params(fn))])
             out += [[f"{name}.{p}", d] for p, d in _defaults(fn).items()]
@@ -296,10 +386,10 @@ def translate(src):
             for f in fns:
                 d = _defaults(src.find(REL, f))
                 if param not in d:
-                    raise core.AnchorMissing(f"{f}: parameter {param} has no default")
+                    raise _Missing(f"{f}: parameter {param} has no default")
                 vals.add(d[param])
             if len(vals) != 1:
-                raise core.AnchorMissing(f"default of {param} differs between functions: {sorted(vals)}")
+                raise _Missing(f"default of {param} differs between functions: {sorted(vals)}")
             return ast.literal_eval(vals.pop())
         return get
 
@@ -326,12 +416,30 @@ def translate(src):
                 _u(t).startswith(f"{ts}.") for t in (st.targets if isinstance(st, ast.Assign) else [st.target]))]
             first_use = min([k for k, st in enumerate(simple) if uses(st)] or [0])
             if len(cons) != 1 or not wr or len(rets) != 1:
-                raise core.AnchorMissing(f"{name}: expected one TiltStack(...), at least one write_out and one return")
+                raise _Missing(f"{name}: expected one TiltStack(...), at least one write_out and one return")
             order_ok = cons[0] == first_use and all(s < wr[0] for s in sets) and wr[-1] < rets[0] and rets[0] == len(simple) - 1 - sum(isinstance(st, ast.Raise) for st in simple[rets[0] + 1:])
             return [_u(simple[cons[0]])] + [_u(simple[k]) for k in wr] + [_u(simple[rets[0]])] + ["order:" + ("construct<data-updates<write_out<return" if order_ok else "VIOLATED")]
         return get
 
     body = lambda name, rel=REL: (lambda: _skeleton(F(name, rel).body))
+
+    def static_helper(cls, meth, rel):
+        """a @staticmethod helper that harness/decorators.json does not list: looked up here with the binding discipline of
+        core.Source.binding_anchors (defined exactly once in the class body, decorated with exactly `staticmethod`, never re-bound)"""
+        def get():
+            c = src.find(rel, cls)
+            defs = [st for st in c.body if isinstance(st, (ast.FunctionDef, ast.AsyncFunctionDef)) and st.name == meth]
+            other = [st for st in ast.walk(src.tree(rel)) if isinstance(st, (ast.Assign, ast.AugAssign, ast.AnnAssign)) and any(
+                (isinstance(t, ast.Attribute) and t.attr == meth) or (isinstance(t, ast.Name) and t.id == meth and st in c.body)
+                for t in (st.targets if isinstance(st, ast.Assign) else [st.target]))]
+            setattrs = [n for n in ast.walk(src.tree(rel)) if isinstance(n, ast.Call) and _u(n.func) == "setattr" and len(n.args) >= 2
+                        and isinstance(n.args[1], ast.Constant) and n.args[1].value == meth]
+            if len(defs) != 1 or other or setattrs:
+                raise core.AnchorMissing(f"{rel}:{cls}.{meth} is defined {len(defs)} times / re-bound at lines {[o.lineno for o in other + setattrs]}")
+            if [_u(d).replace(" ", "") for d in defs[0].decorator_list] != ["staticmethod"]:
+                raise core.AnchorMissing(f"{rel}:{cls}.{meth}: decorators {[_u(d) for d in defs[0].decorator_list]} (documented: staticmethod)")
+            return _skeleton(_alpha(defs[0]).body)
+        return get
 
     flip = A("flip_along_axes:axis-table", flip_table) or DOC["flip"]
     shift = A("indices_load:numbered_from_1-shift", index_shift) or DOC["shift"]
@@ -353,7 +461,12 @@ def translate(src):
         ("cropBody", "crop", REL), ("sortBody", "sort_tilts_by_angle", REL), ("removeBody", "remove_tilts", REL), ("binBody", "bin", REL),
         ("splitBody", "split_stack_even_odd", REL), ("flipBody", "flip_along_axes", REL), ("initBody", "TiltStack.__init__", REL),
         ("writeOutBody", "TiltStack.write_out", REL), ("correctOrderBody", "TiltStack.correct_order", REL),
-        ("indicesLoadBody", "indices_load", REL_IO), ("tltLoadBody", "tlt_load", REL_IO)]]
+        ("indicesLoadBody", "indices_load", REL_IO), ("tltLoadBody", "tlt_load", REL_IO),
+        # the readers the angles of `sort_tilts_by_angle` pass through, and the MRC reader/writer every operation passes through
+        ("oneValuePerLineBody", "one_value_per_line_read", REL_IO), ("mdocInitBody", "Mdoc.__init__", REL_MDOC),
+        ("mdocReadBody", "Mdoc._read_mdoc", REL_MDOC), ("mdocParseImagesBody", "Mdoc._parse_images", REL_MDOC),
+        ("mdocFeatureBody", "Mdoc.get_image_feature", REL_MDOC), ("cryomapReadBody", "read", REL_MAP), ("cryomapWriteBody", "write", REL_MAP)]]
+    bodies.append(["mdocFormatValueBody", A("Mdoc._format_value:body", static_helper("Mdoc", "_format_value", REL_MDOC)) or []])
 
     def pairs(xs):
         return "[" + ", ".join(f"({core.lean_str(str(a))}, {core.lean_str(str(b))})" for a, b in xs) + "]"
@@ -368,8 +481,8 @@ def translate(src):
     wr = "true" if (wrt is None or wrt) else "false"
     if rdt is None: rd = "false"      # documented: files are read and written untransposed
     if wrt is None: wr = "false"
-    return f"""-- GENERATED by harness/props/c15.py from {REL}, {REL_IO}; do not edit
--- (local variables alpha-renamed v0, v1, ... in order of first binding; docstrings, prints and exception messages dropped)
+    return f"""-- GENERATED by harness/props/c15.py from {REL}, {REL_IO}, {REL_MDOC}, {REL_MAP}; do not edit
+-- (local variables alpha-renamed v0, v1, ... by binding occurrence; type annotations, docstrings, print/warning/log calls and exception messages dropped)
 namespace CryoCat.Gen.C15
 def anchorsOk : Bool := {"true" if src.ok else "false"}
 def flipTable : List (String × Nat) := [{", ".join(f"({core.lean_str(a)}, {int(k)})" for a, k in flip)}]
@@ -488,18 +601,47 @@ def _params_for(rng, op, case, tier, bad):
     n, h, w = case["n"], case["h"], case["w"]
     out = {}
     if op == "sort":
-        grid = rng.choice([1, 2, 4, 8])
         m = n
         r = rng.random()
         if r < 0.06:
             m = rng.randint(1, n - 1)                                  # fewer angles than images (outside the statement)
         elif r < 0.10:
             m = n + rng.randint(1, 3)                                  # more angles than images
-        pool = rng.sample(range(-70 * grid, 70 * grid + 1), m)         # distinct: no ties
-        out["angles"] = [f2b(p / grid) for p in pool]
-        if rng.random() < 0.1:
-            out["angles"] = sorted(out["angles"], key=b2f, reverse=rng.random() < 0.5)
-        out["ang_src"] = rng.choice(["list", "array", "list", "array", "tlt", "rawtlt", "mdoc"])
+        if rng.random() < 0.35:                                        # dyadic grid (exact in every float format)
+            grid = rng.choice([1, 2, 4, 8])
+            pool = rng.sample(range(-70 * grid, 70 * grid + 1), m)     # distinct: no ties
+            txt = [repr(p / grid) for p in pool]
+        else:
+            # H3: angles as a user writes them: decimal, 1-4 decimals, off the dyadic grid, with pairs that differ only in the
+            # last written digit (0.01-0.03 deg for two decimals, 1e-4 deg for four) so that any loss of precision between
+            # the file and the sort key (rounding, float16, a "%.1f" round trip) changes the order
+            dec = rng.choice([1, 2, 2, 2, 3, 3, 4, 4])
+            scale = 10 ** dec
+            pool = rng.sample(range(-70 * scale, 70 * scale + 1), m)
+            if m >= 2 and rng.random() < 0.7:
+                for _ in range(rng.randint(1, max(1, m // 2))):
+                    i, j = rng.sample(range(m), 2)
+                    cand = pool[j] + rng.choice([-1, 1]) * rng.choice([1, 1, 1, 2, 3, max(1, scale // 25)])   # all < 0.05 deg
+                    if cand not in pool:
+                        pool[i] = cand
+            txt = [_dec_text(p, dec, rng) for p in pool]
+        r = rng.random()
+        if r < 0.25:                                                   # descending input: every close pair must be swapped
+            txt = sorted(txt, key=Fraction, reverse=True)
+        elif r < 0.30:
+            txt = sorted(txt, key=Fraction)
+        if m >= 2 and rng.random() < 0.04 and not bad:                 # a tie (outside the statement: only "some ascending order" is judged)
+            i, j = rng.sample(range(m), 2)
+            txt[i] = txt[j] if rng.random() < 0.5 or "." not in txt[j] else txt[j] + "0"
+        out["angles_txt"] = txt
+        out["ang_src"] = rng.choice(["list", "list", "list", "array", "array", "array", "array32", "tlt", "tlt", "tlt", "rawtlt", "rawtlt",
+                                     "mdoc", "mdoc", "mdoc"])
+        if rng.random() < 0.03:
+            out["ang_src"] = "tuple"                                   # array-like, but tlt_load refuses it loudly (outside; model: arg-type)
+        if out["ang_src"] in ("tlt", "rawtlt", "mdoc") and rng.random() < 0.4:
+            out["file_style"] = rng.choice(["crlf", "blank-end", "pad", "no-final-newline"] if out["ang_src"] != "mdoc" else ["crlf"])
+        if all(re.fullmatch(r"-?\d+", t) for t in txt) and rng.random() < 0.6:
+            out["ang_int"] = True                                      # python ints / an int64 array
     elif op == "remove":
         base1 = rng.random() < 0.5
         b = 1 if base1 else 0
@@ -514,6 +656,8 @@ def _params_for(rng, op, case, tier, bad):
         if rng.random() < 0.05:
             idxs.append(rng.choice(idxs))
         src = rng.choice(["list", "array", "list", "array", "array32", "txt", "csv"])
+        if rng.random() < 0.03:
+            src = "tuple"                                              # array-like, but indices_load refuses it loudly (outside; model: arg-type)
         if bad:
             r = rng.random()
             if r < 0.3:
@@ -557,6 +701,37 @@ def _params_for(rng, op, case, tier, bad):
     return out
 
 
+def _dec_text(p, dec, rng):
+    """the integer p / 10**dec as a user writes it: fixed number of decimals, sometimes with the trailing zeros dropped"""
+    scale = 10 ** dec
+    t = f"{'-' if p < 0 else ''}{abs(p) // scale}.{abs(p) % scale:0{dec}d}"
+    if t.endswith("0") and rng.random() < 0.3:
+        t = t.rstrip("0")
+        t = t + "0" if t.endswith(".") and rng.random() < 0.6 else t.rstrip(".")
+    return t if Fraction(t) != 0 or not t.startswith("-") else t[1:]
+
+
+DEC_RE = re.compile(r"[+-]?(\d+\.?\d*|\.\d+)")      # the grammar of the Lean model's parseDec
+
+
+def _atxt(case):
+    """the tilt angles of a sort case as decimal TEXT, one per image (legacy corpus cases carry float64 bit patterns)"""
+    if "angles_txt" in case:
+        return list(case["angles_txt"])
+    return [repr(b2f(a)) for a in case["angles"]]
+
+
+def _akey(case):
+    return "angles_txt" if "angles_txt" in case else "angles"
+
+
+def _keys_as_read(case):
+    """the sort keys as the code sees them: float32 for one-value-per-line files and float32 arrays, float64 otherwise"""
+    src = _src_of(case, "ang_src")
+    dt = np.float32 if src in ("tlt", "rawtlt", "array32") else np.float64
+    return [dt(float(t)) for t in _atxt(case)]
+
+
 def _omit(rng):
     if rng.random() < 0.35:        # G1: ~1/3 of the cases leave out every keyword whose value is the signature default
         names = ["input_order", "output_order", "output_file", "numbered_from_1", "new_width", "new_height"]
@@ -589,6 +764,16 @@ def _new_case(rng, op, tier):
     return case
 
 
+def _distinct_prefix(txt, n, rng):
+    """exactly n angles without ties for a sequence step"""
+    out, seen = [], set()
+    for t in txt:
+        if Fraction(t) not in seen and len(out) < n:
+            out.append(t)
+            seen.add(Fraction(t))
+    return out if len(out) == n else [repr(float(i * 3 - 20) + 0.25) for i in rng.sample(range(n), n)]
+
+
 def _new_seq(rng, tier):
     """G2: several library calls in one process on the same file path / the same caller-owned argument objects"""
     mode = rng.choice(["inplace", "inplace", "rewrite", "shared", "shared"])
@@ -607,7 +792,7 @@ def _new_seq(rng, tier):
         if op == "remove":
             st["idx_src"] = rng.choice(["array", "array", "array", "list", "txt"])
         if op == "sort":
-            st["angles"] = st["angles"][:n] if len(st["angles"]) >= n else [f2b(float(i * 3 - 20)) for i in rng.sample(range(n), n)]
+            st["angles_txt"] = _distinct_prefix(st["angles_txt"], n, rng)
             st["ang_src"] = rng.choice(["array", "array", "list", "tlt"])
         if op == "flip" and st["axes_kind"] == "tuple":
             st["axes_kind"] = "list"
@@ -628,7 +813,7 @@ def _new_seq(rng, tier):
             st = dict(op=op)
             p = _params_for(rng, op, cur, tier, False)
             if op == "sort":
-                p["angles"] = p["angles"][:cur["n"]] if len(p["angles"]) >= cur["n"] else [f2b(float(i * 3 - 20)) for i in rng.sample(range(cur["n"]), cur["n"])]
+                p["angles_txt"] = _distinct_prefix(p["angles_txt"], cur["n"], rng)
                 p["ang_src"] = rng.choice(["list", "array"])
             if op == "remove":
                 b = 1 if p["base1"] else 0
@@ -672,12 +857,13 @@ def _resize(case, n=None, h=None, w=None):
         return None
     b = 1 if c.get("base1") else 0
     if c["op"] == "sort":
-        if len(c["angles"]) == c["n"]:
-            c["angles"] = c["angles"][:n]
-        elif len(c["angles"]) > c["n"]:
-            c["angles"] = c["angles"][:n + 1]
+        k = _akey(c)
+        if len(c[k]) == c["n"]:
+            c[k] = c[k][:n]
+        elif len(c[k]) > c["n"]:
+            c[k] = c[k][:n + 1]
         else:
-            c["angles"] = c["angles"][:max(1, min(len(c["angles"]), n - 1))]
+            c[k] = c[k][:max(1, min(len(c[k]), n - 1))]
     if c["op"] == "remove":
         keep = [i for i in c["idxs"] if i - b < n or i - b == c["n"]]
         keep = [i if i - b < n else n + b for i in keep]
@@ -729,17 +915,47 @@ def shrink(case):
 
 
 # ------------------------------------------------------------------ implementation
-def _err_kind(e):
-    s = str(e)
-    if isinstance(e, ValueError) and "new_width cannot" in s: return "crop-width"
-    if isinstance(e, ValueError) and "new_height cannot" in s: return "crop-height"
-    if isinstance(e, IndexError) and "exceed bounds" in s: return "index"
-    if isinstance(e, ValueError) and "can't be empty" in s: return "empty-indices"
-    if isinstance(e, ValueError) and "only 1 tilt" in s: return "single-tilt"
-    if isinstance(e, ValueError) and "axes can be" in s: return "axis"
-    if isinstance(e, IndexError) and "out of bounds for axis 0" in s: return "angle-index"
-    if isinstance(e, TypeError) and ("not iterable" in s or "0-d" in s): return "scalar-index"
-    return f"other:{type(e).__name__}: {s[:160]}"
+def _violations(case):
+    """H1: the DOCUMENTED preconditions this case violates, each with the exception type the documentation announces, in the order
+    the code checks them. Evaluated from the case alone (never from the text of a message)."""
+    op, n, h, w = case["op"], case["n"], case["h"], case["w"]
+    v = []
+    if op == "crop":
+        if case["new_w"] is not None and case["new_w"] > w:
+            v.append(("crop-width", ValueError))
+        if case["new_h"] is not None and case["new_h"] > h:
+            v.append(("crop-height", ValueError))
+    elif op == "remove":
+        src = _src_of(case, "idx_src")
+        b = 1 if case["base1"] else 0
+        if src == "tuple":
+            v.append(("arg-type", ValueError))
+        if src not in ("csv", "txt") and not case["idxs"]:
+            v.append(("empty-indices", ValueError))
+        if any(i < b or i >= n + b for i in case["idxs"]):
+            v.append(("index", IndexError))
+    elif op == "flip":
+        kind = case.get("axes_kind") or ("list" if isinstance(case["axes"], list) else "str")
+        ax = case["axes"] if isinstance(case["axes"], list) else [case["axes"]]
+        if kind == "tuple" or any(a not in ("x", "y", "z") for a in ax):
+            v.append(("axis", ValueError))
+    elif op == "sort":
+        if _src_of(case, "ang_src") == "tuple":
+            v.append(("arg-type", ValueError))
+        if len(_atxt(case)) > n:
+            v.append(("angle-index", IndexError))
+    elif op == "split" and n == 1:
+        v.append(("single-tilt", ValueError))
+    return v
+
+
+def _err_kind(e, case):
+    """exception TYPE + WHICH documented precondition the case violates (H1). An exception on a case that violates nothing, or of
+    another type than announced, is `other:<type>`; the message never takes part (it is kept aside for the report only)."""
+    for kind, et in _violations(case):
+        if type(e) is et:
+            return kind
+    return f"other:{type(e).__name__}"
 
 
 def _in_cryocat(e):
@@ -748,8 +964,9 @@ def _in_cryocat(e):
     return any("/cryocat/" in fr.filename.replace("\\", "/") for fr in traceback.extract_tb(e.__traceback__))
 
 
-def _error_of(e):
-    return _err_kind(e) if _in_cryocat(e) else f"foreign:{type(e).__name__}: {str(e)[:160]}"
+def _error_of(e, case):
+    """(kind, message): only the kind is compared anywhere"""
+    return (_err_kind(e, case) if _in_cryocat(e) else f"foreign:{type(e).__name__}"), f"{type(e).__name__}: {str(e)[:160]}"
 
 
 def _src_of(case, key):
@@ -762,8 +979,23 @@ def _src_of(case, key):
 def _mdoc_text(angles):
     txt = "PixelSpacing = 1.35\nImageFile = ts.mrc\nImageSize = 10 7\nDataMode = 1\n\n[T = SerialEM: C15 harness]\n\n"
     for z, a in enumerate(angles):
-        txt += f"[ZValue = {z}]\nTiltAngle = {a!r}\nExposureDose = 3.0\n\n"
+        txt += f"[ZValue = {z}]\nTiltAngle = {a}\nExposureDose = 3.0\n\n"
     return txt
+
+
+def _angle_file_text(case):
+    """the exact text of the angle file of a sort case (deterministic: the adapter writes it, the model receives its lines)"""
+    txt, src, style = _atxt(case), _src_of(case, "ang_src"), case.get("file_style", "plain")
+    if src == "mdoc":
+        body = _mdoc_text(txt)
+    else:
+        width = max(len(t) for t in txt) + 2 if style == "pad" else 0
+        body = "".join((" " if src == "rawtlt" else "") + t.rjust(width) + "\n" for t in txt)
+        if style == "blank-end":
+            body += "\n"
+        if style == "no-final-newline":
+            body = body[:-1]
+    return body.replace("\n", "\r\n") if style == "crlf" else body
 
 
 def _make_arg(case, td, tag="arg"):
@@ -771,15 +1003,20 @@ def _make_arg(case, td, tag="arg"):
     Returns (object, snapshot function)"""
     op = case["op"]
     if op == "sort":
-        ang = [b2f(a) for a in case["angles"]]
+        txt = _atxt(case)
         src = _src_of(case, "ang_src")
+        ang = [int(t) if case.get("ang_int") and re.fullmatch(r"[+-]?\d+", t) else float(t) for t in txt]
         if src == "list":
             return ang
         if src == "array":
-            return np.array(ang)
+            return np.array(ang)                                    # float64, or int64 when every angle is a python int
+        if src == "array32":
+            return np.array(ang, dtype=np.float32)
+        if src == "tuple":
+            return tuple(ang)
         path = os.path.join(td, f"{tag}.{'mdoc' if src == 'mdoc' else src}")
-        with open(path, "w") as f:
-            f.write(_mdoc_text(ang) if src == "mdoc" else "".join((" " if src == "rawtlt" else "") + repr(a) + "\n" for a in ang))
+        with open(path, "w", newline="") as f:                      # the decimal text exactly as the case holds it
+            f.write(_angle_file_text(case))
         return path
     if op == "remove":
         src = _src_of(case, "idx_src")
@@ -789,6 +1026,8 @@ def _make_arg(case, td, tag="arg"):
             return np.array(case["idxs"], dtype=np.int64)
         if src == "array32":
             return np.array(case["idxs"], dtype=np.int32)
+        if src == "tuple":
+            return tuple(case["idxs"])
         b = 1 if case["base1"] else 0
         if src == "txt":
             path = os.path.join(td, f"{tag}.txt")
@@ -920,12 +1159,12 @@ def run_impl(case):
             try:
                 rets, paths = _call(tiltstack, case, sarg, in_order, out, out_path, arg)
             except Exception as e:
-                rec["error"] = _error_of(e)
+                rec["error"], rec["error_msg"] = _error_of(e, case)
                 if ci == 0:
-                    obs["ref"] = dict(error=rec["error"])
+                    obs["ref"] = dict(error=rec["error"], error_msg=rec["error_msg"])
                 else:
                     rec["same"] = obs["ref"].get("error") == rec["error"]
-                    rec["detail"] = f"raises {rec['error']}"
+                    rec["detail"] = f"raises {rec['error']} ({rec['error_msg']})"
                 rec["files_left"] = sorted(f for f in os.listdir(td) if f.startswith(f"out{ci}"))
                 rets = None
             if (before is not None and not np.array_equal(before, codes_of(sarg, dtype))) or (before is None and open(in_path, "rb").read() != in_bytes):
@@ -955,7 +1194,7 @@ def run_impl(case):
                         obs["twice_identity"] = bool(back is not None and back.shape == Xc.shape and np.array_equal(back, Xc))
                     except Exception as e:
                         obs["twice_identity"] = False
-                        obs["twice_error"] = _error_of(e)
+                        obs["twice_error"] = " ".join(_error_of(e, case))
             else:
                 if "error" in obs["ref"]:
                     rec["same"], rec["detail"] = False, f"returns although the reference configuration raises {obs['ref']['error']}"
@@ -996,7 +1235,7 @@ def _run_seq(case, tiltstack):
                     nr = _norm(rets[0], out, dtype)
                     rec["returned"] = dict(shape=list(nr.shape), data=nr.ravel().tolist()) if nr is not None else None
                 except Exception as e:
-                    rec["error"] = _error_of(e)
+                    rec["error"], rec["error_msg"] = _error_of(e, st)
                 if _snap(arg) != arg0:
                     rec["arg_modified"] = f"{arg0[1] if arg0[0] != 'file' else 'file'} -> {_snap(arg)[1] if arg0[0] != 'file' else 'changed'}"[:200]
                 if not (np.array_equal(codes_of(X, dtype), Xc) and np.array_equal(codes_of(Xx, dtype), Xc.transpose(2, 1, 0))):
@@ -1030,7 +1269,7 @@ def _run_seq(case, tiltstack):
                 elif open(p, "rb").read() != bytes_before:
                     rec["mutated_input"] = True
             except Exception as e:
-                rec["error"] = _error_of(e)
+                rec["error"], rec["error_msg"] = _error_of(e, st)
                 if open(p, "rb").read() != bytes_before:
                     rec["files_left"] = ["work.mrc rewritten although the call raised"]
             obs["calls"].append(rec)
@@ -1058,11 +1297,17 @@ def _request(case, data, inp, out, wr):
         req["out_zyx"] = 1 if out == "zyx" else 0
     op = case["op"]
     if op == "sort":
-        req["angles"] = case["angles"]
+        # the angles go to the model as the decimal TEXT the file / list holds; Lean parses it exactly (Rat), nothing is rounded on the way
+        src = _src_of(case, "ang_src")
+        if src in ("tlt", "rawtlt", "mdoc"):      # ALL the lines of the file: the model extracts the column of angles itself
+            req.update(angle_lines=_angle_file_text(case).split("\n"), ang_kind="mdoc" if src == "mdoc" else "tlt")
+        else:
+            req.update(angle_lines=_atxt(case), ang_kind="other" if src == "tuple" else "seq")
     elif op == "remove":
         src = _src_of(case, "idx_src")
         b = 1 if case["base1"] else 0
-        req.update(idxs=sorted({i - b for i in case["idxs"]}) if src == "csv" else case["idxs"], src={"txt": "txt", "csv": "csv"}.get(src, "list"))
+        req.update(idxs=sorted({i - b for i in case["idxs"]}) if src == "csv" else case["idxs"],
+                   src={"txt": "txt", "csv": "csv", "tuple": "other"}.get(src, "list"))
         if _passed(case, "numbered_from_1", bool(case["base1"])):
             req["base1"] = 1 if case["base1"] else 0
     elif op == "flip":
@@ -1109,11 +1354,24 @@ def _expect(case):
     """independent evaluation of the documented domain: ('ok', None) inside the statement's quantifier, ('reject', kind) where the
     documentation announces a refusal, ('outside', why) for inputs the statement does not speak about (judged against the model only)"""
     op, n, h, w = case["op"], case["n"], case["h"], case["w"]
-    if op == "sort" and len(case["angles"]) != n:
-        return "outside", "the angle list has another length than the stack"
+    if op == "sort":
+        txt = _atxt(case)
+        if _src_of(case, "ang_src") == "tuple":
+            return "outside", "angles passed as a tuple (tlt_load accepts a path, a list or an ndarray and refuses anything else)"
+        if len(txt) != n:
+            return "outside", "the angle list has another length than the stack"
+        if not all(DEC_RE.fullmatch(t.strip()) for t in txt):
+            return "outside", "an angle that is not a plain decimal number"
+        if len({Fraction(t.strip()) for t in txt}) < n:
+            return "ties", "tied angles (the statement says: without ties)"
+        if len(set(_keys_as_read(case))) < n:
+            # monotone rounding keeps the order of different angles unless it merges them; needs >= 7 significant digits (float32)
+            return "ties", "different written angles that round to the same float in the reader's dtype"
     if op == "remove":
         src = _src_of(case, "idx_src")
         b = 1 if case["base1"] else 0
+        if src == "tuple":
+            return "outside", "indices passed as a tuple (indices_load accepts a path, a list or an ndarray and refuses anything else)"
         if src not in ("csv", "txt") and not case["idxs"]:
             return "reject", "empty-indices"
         if any(i < b or i >= n + b for i in case["idxs"]):
@@ -1141,7 +1399,7 @@ def _spec(case, X, res):
     op = case["op"]
     n, h, w = X.shape
     if op == "sort":
-        ang = [b2f(a) for a in case["angles"]]
+        ang = [Fraction(t.strip()) for t in _atxt(case)]          # the angles AS WRITTEN, exact: no float in the oracle
         order = sorted(range(n), key=lambda i: ang[i])
         exp = X[order]
         if res[0].shape != exp.shape or not np.array_equal(res[0], exp):
@@ -1259,19 +1517,39 @@ def max_bin_dev(case, obs, model):
     return float(np.max(np.abs(got - q))) if got.shape == q.shape and got.size else None
 
 
-def _judge_error(case, err, model, where, status, why):
-    """one call raised `err`"""
+def _judge_error(case, err, model, where, status, why, msg=""):
+    """one call raised an exception of kind `err` (type + violated precondition, see _err_kind); `msg` is quoted, never compared"""
     out = []
     if err.startswith("foreign:"):            # G4: no frame of the traceback lies inside cryocat
-        return [dict(kind="corr", clause="harness-or-library-raised", detail=f"{where}: {err[8:]}")]
+        return [dict(kind="corr", clause="harness-or-library-raised", detail=f"{where}: {msg or err[8:]}")]
     if status == "ok":                        # decided without the model: the input is inside the statement's quantifier
-        out.append(dict(kind="spec", clause="raises-on-valid-input", detail=f"{case['op']} raises {err} {where}"))
+        out.append(dict(kind="spec", clause="raises-on-valid-input", detail=f"{case['op']} raises {msg or err} {where}"))
     if "error" not in model:
         if status != "ok":
-            out.append(dict(kind="corr", clause="raises-where-model-returns", detail=f"{case['op']} raises {err} {where} ({why}); the model returns"))
+            out.append(dict(kind="corr", clause="raises-where-model-returns", detail=f"{case['op']} raises {err} [{msg}] {where} ({why}); the model returns"))
     elif model["error"] != "reject:" + err:
-        out.append(dict(kind="corr", clause="error-kind", detail=f"implementation {err} vs model {model['error']} {where}"))
+        out.append(dict(kind="corr", clause="error-kind", detail=f"implementation {err} [{msg}] vs model {model['error']} {where}"))
     return out
+
+
+def _ascending_some_order(case, X, res):
+    """tied angles (outside the statement): numpy's default argsort is not stable, so only this is checked — the result is the input
+    images in SOME order that is ascending in the written angle (tied images in either order)"""
+    ang = [Fraction(t.strip()) for t in _atxt(case)]
+    if _expect(case)[1].startswith("different"):
+        ang = _keys_as_read(case)
+    n = X.shape[0]
+    if res[0].shape != X.shape:
+        return f"result has shape {res[0].shape}, input {X.shape}"
+    first = {tuple(X[i].ravel().tolist()): i for i in range(n)}
+    if len(first) < n:
+        return None                              # two identical images: positions cannot be recovered, nothing to say
+    pos = [first.get(tuple(res[0][k].ravel().tolist())) for k in range(n)]
+    if None in pos or sorted(pos) != list(range(n)):
+        return "result is not a permutation of the input images"
+    if any(ang[pos[k]] > ang[pos[k + 1]] for k in range(n - 1)):
+        return f"result order {pos} is not ascending in the angles"
+    return None
 
 
 def _judge_seq(case, obs, resps):
@@ -1292,7 +1570,7 @@ def _judge_seq(case, obs, resps):
         if call.get("mutated_input"):
             out.append(dict(kind="spec", clause="caller-owned-argument-modified", detail=f"{st['op']} {where} changed the stack / the input file it was given"))
         if "error" in call:
-            out += _judge_error(st, call["error"], model, where, status, why)
+            out += _judge_error(st, call["error"], model, where, status, why, call.get("error_msg", ""))
             if call.get("files_left"):
                 out.append(dict(kind="corr", clause="file-written-before-rejection", detail=f"{where}: {call['files_left']}"))
             continue
@@ -1310,6 +1588,11 @@ def _judge_seq(case, obs, resps):
                 out.append(dict(kind=bad[0], clause=bad[1], detail=f"{where}: {bad[2]}"))
         if call.get("file_detail"):
             out.append(dict(kind="spec", clause="file-holds-the-result", detail=f"{where}, output file = the input path: {call['file_detail']}"))
+        if status == "ties":
+            bad = _ascending_some_order(st, Xin, res)
+            if bad:
+                out.append(dict(kind="corr", clause="sort-ties-not-ascending", detail=f"{where}: {bad} ({why})"))
+            continue
         d = _model_diff(st, dict(returned=[dict(shape=[r["shape"][0], r["shape"][1], r["shape"][2]] if case["out"] == "zyx" else r["shape"][::-1],
                                                 data=(res[0] if case["out"] == "zyx" else np.ascontiguousarray(res[0].transpose(2, 1, 0))).ravel().tolist())]), model)
         if d:
@@ -1340,10 +1623,10 @@ def judge(case, obs, resps):
             break
     foreign = next((c for c in obs["configs"] if str(c.get("error", "")).startswith("foreign:")), None)
     if foreign is not None and not str(ref.get("error", "")).startswith("foreign:"):
-        out.append(dict(kind="corr", clause="harness-or-library-raised", detail=f"configuration {foreign['cfg']}: {foreign['error'][8:]}"))
+        out.append(dict(kind="corr", clause="harness-or-library-raised", detail=f"configuration {foreign['cfg']}: {foreign.get('error_msg') or foreign['error'][8:]}"))
     # ---- rejections
     if "error" in ref:
-        out += _judge_error(case, ref["error"], model, f"in configuration {case['cfg']}", status, why)
+        out += _judge_error(case, ref["error"], model, f"in configuration {case['cfg']}", status, why, ref.get("error_msg", ""))
         if ref["error"].startswith("foreign:"):
             return out
         for c in obs["configs"][1:]:
@@ -1385,6 +1668,12 @@ def judge(case, obs, resps):
         if not c.get("same", True) and not str(c.get("error", "")).startswith("foreign:"):
             out.append(dict(kind="spec", clause="same-result-in-every-configuration", detail=f"configuration {c['cfg']} vs {case['cfg']}: {c.get('detail', '')}"))
             break
+    if status == "ties":
+        # the model's sort is stable (Props: sort_ties_keep_input_order), numpy's default argsort need not be: no comparison of positions
+        bad = _ascending_some_order(case, values(case).reshape(case["n"], case["h"], case["w"]), res)
+        if bad:
+            out.append(dict(kind="corr", clause="sort-ties-not-ascending", detail=f"configuration {case['cfg']}: {bad} ({why})"))
+        return out
     # ---- correspondence with the Lean model (same defs as the theorems)
     d = _model_diff(case, ref, model)
     if d:
@@ -1435,8 +1724,16 @@ def stats(case, obs, resps):
         d["remove_src"] = _src_of(case, "idx_src")
         d["remove_remaining"] = "0" if left <= 0 else ("1" if left == 1 else ("2-4" if left <= 4 else "5+")) + ("/n>8" if n > 8 else "")
     if case["op"] == "sort":
-        m = len(case["angles"])
-        d["sort_angles"] = _src_of(case, "ang_src") + ("" if m == n else ("/fewer-angles" if m < n else "/more-angles"))
+        txt = _atxt(case)
+        m = len(txt)
+        d["sort_angles"] = _src_of(case, "ang_src") + ("/ints" if case.get("ang_int") else "") + ("" if m == n else ("/fewer-angles" if m < n else "/more-angles"))
+        fr = sorted(Fraction(t.strip()) for t in txt)
+        gap = min([b - a for a, b in zip(fr, fr[1:])] or [Fraction(999)])
+        d["sort_min_gap_deg"] = "tie" if gap == 0 else ("<=1e-4" if gap <= Fraction(1, 10000) else ("<=0.01" if gap <= Fraction(1, 100) else ("<0.05" if gap < Fraction(1, 20) else ">=0.05")))
+        if _src_of(case, "ang_src") in ("tlt", "rawtlt", "mdoc"):
+            d["sort_file_style"] = case.get("file_style", "plain")
+        d["sort_angle_text"] = "dyadic" if all((Fraction(t.strip()) * 8).denominator == 1 for t in txt) else f"decimal/{max(len(t.partition('.')[2]) for t in txt)}dp"
+        d["sort_input_order"] = "descending" if fr[::-1] == [Fraction(t.strip()) for t in txt] and m > 1 else ("ascending" if fr == [Fraction(t.strip()) for t in txt] else "mixed")
     if case["op"] == "flip":
         d["flip_axes"] = (case.get("axes_kind") or "") + ":" + ("".join(case["axes"]) if isinstance(case["axes"], list) else case["axes"])
     if case["op"] == "bin":
@@ -1491,17 +1788,21 @@ def probes(rng):
     return out
 
 
-LEVEL_TEXT = ("Lean 4 theorems about an executable model of the tilt-stack operations (sorting by angle is an ascending permutation, removal keeps exactly "
+LEVEL_TEXT = ("Lean 4 theorems about an executable model of the tilt-stack operations (sorting by angle is an ascending permutation of the images, judged on the "
+              "exact rational value of the angles as written in the .tlt / .mdoc file or list (decimal text parsed in Lean), unique without ties; removal keeps exactly "
               "the other images in order for 1-/0-based indices and every index source, even/odd split interleaves back, flips are involutions that reverse the "
               "documented axis, the crop is the centred window, binning is the block mean and its int16 cast a truncation toward zero, x,y,n / n,y,x / MRC-file "
               "input give the same result and the written file holds it, also through the dtype cast and for each of the real functions) for all stack sizes "
               "and all voxel values; the model is tied to the source by regenerated anchors (flip axis table, index shift, parity rule, transpose axes and "
               "conditions, signature defaults, the TiltStack -> write_out -> correct_order wrapper of each function, alpha-normalised dumps of the whole "
-              "bodies of the six functions, the TiltStack methods, indices_load and tlt_load) and by an exact differential run of the real functions in "
+              "bodies of the six functions, the TiltStack methods, indices_load, tlt_load, one_value_per_line_read, the mdoc reader (Mdoc.__init__, _read_mdoc, "
+              "_parse_images, _format_value, get_image_feature) and cryomap.read / cryomap.write) and by an exact differential run of the real functions in "
               "all 16 configurations and in multi-call sequences against the model")
 LEVEL_NOTE = ("trusted: Lean kernel; translator anchors; harness MRC parser; numpy indexing and mrcfile I/O are modelled, not verified; binning is proved as "
               "exact block means over a field, the int16 cast is modelled as truncation toward zero (proved, compared exactly), the float32 rounding of the real "
-              "code is only validated (exact on the generated dyadic inputs); angle lists of another length than the stack, tuple axes and empty index files are "
-              "outside the statement and only compared with the model")
+              "code is only validated (exact on the generated dyadic inputs); angle lists of another length than the stack, tuple arguments, empty index files and tied angles are "
+              "outside the statement (ties: only 'some ascending order' is checked — the model's sort is stable, numpy's default argsort is not promised to be); "
+              "the sort key of the code is the written decimal rounded to float32 (one-value-per-line files) or float64, the model's is the exact decimal: "
+              "equal orders as long as rounding merges no two angles (checked per case)")
 TECHNIQUE = "Lean 4 proof (list induction, permutation/sortedness of merge sort, index algebra of transposition and reshape) + regenerated anchors + exact differential correspondence"
 DESIGN_REF = "DESIGN.md section 4, C15"
